@@ -60,6 +60,9 @@ def onProbeFailed (s : SegSizes) (size : Nat) : SegSizes :=
 
 def disarmCooldown (s : SegSizes) : SegSizes := { s with cooldownRemaining := 0 }
 
+/-- `skip_next_probe()`: the next segment is an ordinary one, whatever the configured cooldown. -/
+def skipNextProbe (s : SegSizes) : SegSizes := { s with cooldownRemaining := max s.cooldownRemaining 1 }
+
 /-- One probe outcome against a consistent path oracle "payload size ≤ P gets through":
 the dispatcher's reaction to the probe of size `n` (`on_payload_delivered` when it is acked,
 `on_probe_failed` when it is rejected or expires). -/
